@@ -31,7 +31,15 @@ def pool(rng, n):
         elif k == 2:
             out.append(("valid-defines", H + "\nfloat %s = %s\nG(%s) | 0\n" % (v, val, v)))
         elif k == 3:
-            out.append(("fails-undefined-after-define", H + "\nfloat %s = %s\nG(zz_undefined) | 0\n" % (v, val)))
+            # the same stage, failing with different exception classes (seeded C12/k: tables cleared after a failed
+            # load only for a list of expected classes; an IndexError or OverflowError left the declarations behind)
+            how = rng.randrange(4)
+            if how <= 1:
+                out.append(("fails-undefined-after-define", H + "\nfloat %s = %s\nG(zz_undefined) | 0\n" % (v, val)))
+            elif how == 2:
+                out.append(("fails-index-after-define", H + "\nfloat %s = %s\nfloat array zzA =\n    1, 2\nfloat zzx = zzA[5]\nG(1) | 0\n" % (v, val)))
+            else:
+                out.append(("fails-overflow-after-define", H + "\nfloat %s = %s\nint zzi = 1/0\nG(1) | 0\n" % (v, val)))
         elif k == 4:
             out.append(("fails-in-loop", H + "\nfor int %s in 2:5\n    G(%s, zz_undefined) | %s\n" % (v, v, v)))
         elif k == 5:
